@@ -607,3 +607,12 @@ package graphql
 //@   at[C13] return: assert calls("executePlannedSelection") == 1 && !old(plan.isMutation) ==> calls("dethunkMapDepthFirst") == 0 && calls("dethunkMapWithBreadthFirstTraversal") == 1
 //@   at[C05] call executePlannedSelection: assert calls("getVariableValues") == 1 && err == nil
 //@   at[C20] call executePlannedSelection: assert arg1 == plan.root && arg2 == p.Root && arg3 == plan.rootType && arg4 == nil && arg0.Root == p.Root && arg0.Context == ctx && arg0.VariableValues == variableValues && arg0.plan == plan
+
+// ---- order pinning (C12): messages are produced from SORTED name lists, never in map order ----
+
+//@ func isValidInputValue
+//@   props C12
+//@   nosafety
+//@   opt invoke.ParseValue=pure
+//@   loop 5 invariant sortedflag(valueMapFieldNames)
+//@   loop 6 invariant sortedflag(fieldNames)
